@@ -45,7 +45,7 @@ contract("lib:textutil.text", trusted=True, pos_params=["value"], pure=True, res
 # outcome alphabet of a step function (C01/C02)
 RETURNS, ASSERT_FAIL, EXCEPTION, NOT_IMPLEMENTED, KBI, SKIP_SCENARIO = range(6)
 
-shape("ModelRunner", config="ref:Configuration", features="any", hooks="dict", formatters="seq:any",
+shape("ModelRunner", config="ref:Configuration", features="seq:ref:Feature", hooks="dict", formatters="seq:any",
       _undefined_steps="seq:ref:Step", step_registry="any", capture_controller="ref:CaptureController",
       context="opt:ref:Context", feature="any", hook_failures="int")
 shape("Context")
@@ -133,6 +133,7 @@ contract(R + "ModelRunner.run_hook", props=["C12", "C01"],
                  "implies(not self.config.dry_run and has_key(self.hooks, name) and hook_raises(old(G_nhooks)), "
                  "self.hook_failures == old(self.hook_failures) + 1 and G_bad == old(G_bad) + 1)",
              "bad-events-never-decrease": "G_bad >= old(G_bad)",
+             "abort-only-with-a-bad-event": "implies(G_ctx_aborted and not old(G_ctx_aborted), G_bad > old(G_bad))",
              "element-hook-failure-marks-that-element":
                  "implies(not self.config.dry_run and has_key(self.hooks, name) and hook_raises(old(G_nhooks)) "
                  "and not str_in('tag', name) and not str_in('all', name) and len(args) > 0 and truthy(args[0]), "
